@@ -377,7 +377,7 @@ ACTIVE_LOCK = threading.Lock()
 LOW_MEM_GB = float(os.environ.get("VERIF_LOW_MEM_GB", "3.0"))
 
 
-def run_cmd(cmd, cwd, timeout, log):
+def run_cmd(cmd, cwd, timeout, log, mem_kb=None):
     """Run under a wall-clock cap and a resident-memory cap (ulimit -v counts address space, which CBMC
     reserves generously; RSS is what matters on a machine without swap). Kills the whole group.
     Under machine-wide memory pressure the youngest run of this driver gives way (it is re-run later)."""
@@ -385,6 +385,7 @@ def run_cmd(cmd, cwd, timeout, log):
     peak = 0
     killed_for_mem = False
     gave_way = False
+    mem_cap = mem_kb or MEM_KB
     with open(log, "w") as lf:
         p = subprocess.Popen(["bash", "-c", "exec " + cmd], cwd=cwd, env=ENV, stdout=lf,
                              stderr=subprocess.STDOUT, start_new_session=True)
@@ -399,7 +400,7 @@ def run_cmd(cmd, cwd, timeout, log):
                 pass
             rss = group_rss_kb(p.pid)
             peak = max(peak, rss)
-            if rss > MEM_KB:
+            if rss > mem_cap:
                 killed_for_mem = True
             if time.time() - t0 > timeout:
                 timed_out = True
@@ -422,10 +423,10 @@ def run_cmd(cmd, cwd, timeout, log):
     with open(log, errors="replace") as lf:
         out = lf.read()
     if killed_for_mem:
-        out += "\n[driver] killed: resident memory above %d MB\n" % (MEM_KB // 1024)
+        out += "\n[driver] killed: resident memory above %d MB\n" % (mem_cap // 1024)
     if gave_way:
         out += "\n[driver] gave way: machine short of memory\n"
-    elif "appears to have run out of memory" in out and not killed_for_mem and peak < MEM_KB * 0.8:
+    elif "appears to have run out of memory" in out and not killed_for_mem and peak < mem_cap * 0.8:
         # the kernel's OOM killer took this run although it was below its own cap: machine-wide pressure
         out += "\n[driver] gave way: killed by the kernel under machine-wide memory pressure\n"
     out += "\n[driver] peak_rss_kb=%d\n" % peak
@@ -485,6 +486,19 @@ class Runner:
         finally:
             self.release(slot)
 
+    def run_with_retry(self, cmd, timeout, log, mem_kb=None):
+        """run_cmd, re-run (up to 4 times) when the run gave way to machine-wide memory pressure"""
+        rc, timed_out, out, wall = run_cmd(cmd, self.ds, timeout, log, mem_kb)
+        tries = 0
+        while "[driver] gave way" in out and tries < 4:
+            # not a verdict: wait until the machine has room (other runs finish), then run again
+            tries += 1
+            time.sleep(20 + 40 * random.random())
+            wait_for_memory(need_gb=24.0)
+            rc, timed_out, out, wall2 = run_cmd(cmd, self.ds, timeout, log, mem_kb)
+            wall += wall2
+        return rc, timed_out, out, wall
+
     def _run(self, h, slot):
         tdir = os.path.join(self.scratch, "t%d" % slot)
         log = os.path.join(self.scratch, "log_%s.txt" % h.name)
@@ -496,15 +510,7 @@ class Runner:
         elif self.tier == "quick":
             # the quick tier is the check run on every change: no single harness may hold it up
             h.timeout = min(h.timeout, QUICK_TIMEOUT)
-        rc, timed_out, out, wall = run_cmd(cmd, self.ds, h.timeout, log)
-        tries = 0
-        while "[driver] gave way" in out and tries < 4:
-            # not a verdict: wait until the machine has room (other runs finish), then run again
-            tries += 1
-            time.sleep(20 + 40 * random.random())
-            wait_for_memory(need_gb=24.0)
-            rc, timed_out, out, wall2 = run_cmd(cmd, self.ds, h.timeout, log)
-            wall += wall2
+        rc, timed_out, out, wall = self.run_with_retry(cmd, h.timeout, log)
         res = parse_kani(out)
         pk = re.findall(r"\[driver\] peak_rss_kb=(\d+)", out)
         res["peak_rss_mb"] = int(pk[-1]) // 1024 if pk else 0
@@ -514,18 +520,13 @@ class Runner:
             # second run, only for failing harnesses: ask for the counterexample values
             log2 = os.path.join(self.scratch, "log_%s_playback.txt" % h.name)
             cmd2 = cmd + " -Z concrete-playback --concrete-playback=print"
-            rc2, to2, out2, wall2 = run_cmd(cmd2, self.ds, max(h.timeout * 3, 600), log2)
+            # (extracting the trace for the playback test needs well above the verification run's memory)
+            rc2, to2, out2, wall2 = self.run_with_retry(cmd2, max(h.timeout * 3, 1800), log2, mem_kb=max(MEM_KB, 28 * 1024 * 1024))
             res["playback"] = parse_kani(out2)["playback"]
             res["wall_s"] = round(wall + wall2, 2)
             if not res["playback"]:
-                # the counterexample run was cut short (memory pressure, cap): once more, with the machine to itself
-                wait_for_memory(need_gb=30.0)
-                rc2, to2, out2, wall3 = run_cmd(cmd2, self.ds, max(h.timeout * 3, 600), log2)
-                res["playback"] = parse_kani(out2)["playback"]
-                res["wall_s"] = round(wall + wall2 + wall3, 2)
-                if not res["playback"]:
-                    res["playback_note"] = "counterexample run gave no test (%s)" % (
-                        "time-out" if to2 else "killed or no trace: " + out2.strip().splitlines()[-1][:120] if out2.strip() else "no output")
+                last = out2.strip().splitlines()[-1][:160] if out2.strip() else "no output"
+                res["playback_note"] = "time-out" if to2 else last
         return res
 
 
@@ -780,6 +781,8 @@ def main():
             sel = [h for h in hs_all if h.name == rname]
         else:
             sel = [h for h in hs_all if (prop in h.props or prop == "ALL") and (tier == "thorough" or h.tier == "quick")]
+            if os.environ.get("VERIF_SKIP_QUICK") == "1":
+                sel = [h for h in sel if h.tier != "quick"]
             if only:
                 sel = [h for h in sel if only in h.name]
         ds, srcdigest = build_overlay(scratch, needed_files(sel))
@@ -811,6 +814,8 @@ def do_replay(prop, path, scratch, ds, hs_all):
 def do_check(prop, tier, seed, only, jobs, scratch, ds, srcdigest, hs_all):
     t0 = time.time()
     hs = [h for h in hs_all if (prop in h.props or prop == "ALL") and (tier == "thorough" or h.tier == "quick")]
+    if os.environ.get("VERIF_SKIP_QUICK") == "1":  # surveys of the thorough-only harnesses
+        hs = [h for h in hs if h.tier != "quick"]
     if only:
         hs = [h for h in hs if only in h.name]
     if not hs:
